@@ -3,7 +3,7 @@
 use crate::enc::*;
 use crate::ops::{moves_of, transform};
 use crate::rng::Rng;
-use chess::{Board, ChessMove, Color, Piece, ALL_PIECES};
+use chess::{Board, ChessMove, Color, Piece, Square, ALL_PIECES};
 use std::convert::TryFrom;
 use std::str::FromStr;
 
@@ -522,3 +522,203 @@ pub fn random_builder_state(rng: &mut Rng) -> BD {
     }
     d
 }
+
+// ------------------------------------------------------------------ special-move scenarios
+//
+// Positions built around ONE special move with the kings and a few other men placed where that
+// move matters (direct / discovered check by an en-passant capture, a king next to an unmoved rook,
+// castling with an attacked transit square, promotion next to the enemy king, double check with
+// the king's neighbourhood crowded).  Returned as a short forced chain: the root and the moves to
+// play from it; callers emit POS / MAKE for every position of the chain and for every legal move of
+// its last position.
+
+fn sqi(rank: usize, file: usize) -> usize { rank * 8 + file }
+
+fn near(rng: &mut Rng, s: usize, radius: i32) -> usize {
+    let r = (s / 8) as i32 + rng.below((2 * radius + 1) as usize) as i32 - radius;
+    let f = (s % 8) as i32 + rng.below((2 * radius + 1) as usize) as i32 - radius;
+    (r.max(0).min(7) * 8 + f.max(0).min(7)) as usize
+}
+
+fn sprinkle(rng: &mut Rng, d: &mut BD, count: usize, around: Option<usize>) {
+    let kinds = [Piece::Queen, Piece::Rook, Piece::Bishop, Piece::Knight, Piece::Pawn, Piece::Rook, Piece::Bishop, Piece::Knight];
+    for _ in 0..count {
+        let s = match around { Some(a) if rng.chance(2, 3) => near(rng, a, 2), _ => rng.below(64) };
+        if d.sq[s].is_some() { continue; }
+        let p = kinds[rng.below(kinds.len())];
+        if p == Piece::Pawn && (s < 8 || s >= 56) { continue; }
+        let c = if rng.chance(1, 2) { Color::White } else { Color::Black };
+        d.sq[s] = Some((p, c));
+    }
+}
+
+/// (root, forced first moves). `None` when the random draw is not accepted by the crate / not valid.
+pub fn special_scenario(rng: &mut Rng) -> Option<(Board, Vec<ChessMove>)> {
+    let kind = rng.below(8);
+    let mut d = BD::empty();
+    let white = rng.chance(1, 2);
+    let (c, o) = if white { (Color::White, Color::Black) } else { (Color::Black, Color::White) };
+    // ranks from the point of view of colour c
+    let rk = |r: usize| if white { r } else { 7 - r };
+    let mut first: Vec<(usize, usize)> = Vec::new();
+    let mut focus: Option<usize> = None;
+    match kind {
+        0 | 1 => {
+            // c double-pushes on file f, an o-pawn on an adjacent file can capture en passant; c's king
+            // often stands where the capturing pawn gives check (or is uncovered by the two vanishing pawns)
+            let f = rng.below(8);
+            let af = if f == 0 { 1 } else if f == 7 { 6 } else if rng.chance(1, 2) { f - 1 } else { f + 1 };
+            d.sq[sqi(rk(1), f)] = Some((Piece::Pawn, c));
+            d.sq[sqi(rk(3), af)] = Some((Piece::Pawn, o));
+            if rng.chance(1, 3) && f > 0 && f < 7 { d.sq[sqi(rk(3), 2 * f - af)] = Some((Piece::Pawn, o)); }
+            let landing = sqi(rk(2), f);
+            let ck = match rng.below(4) {
+                0 => { let kf = if f == 0 { 1 } else if f == 7 { 6 } else if rng.chance(1, 2) { f - 1 } else { f + 1 }; sqi(rk(1), kf) } // checked by the capture
+                1 => sqi(rk(3), rng.below(8)),   // on the rank the two pawns leave
+                2 => near(rng, landing, 2),
+                _ => rng.below(64),
+            };
+            if d.sq[ck].is_none() { d.sq[ck] = Some((Piece::King, c)); } else { return None; }
+            let ok = match rng.below(3) { 0 => near(rng, landing, 3), 1 => sqi(rk(3), rng.below(8)), _ => rng.below(64) };
+            if d.sq[ok].is_none() { d.sq[ok] = Some((Piece::King, o)); } else { return None; }
+            let extra = rng.below(5); sprinkle(rng, &mut d, extra, Some(landing));
+            first.push((sqi(rk(1), f), sqi(rk(3), f)));
+            focus = Some(landing);
+        }
+        2 => {
+            // a king next to an unmoved rook whose owner still has the right; king on its home square
+            let ks = rng.chance(1, 2);
+            let home = rk(0);
+            d.sq[sqi(home, 4)] = Some((Piece::King, c));
+            let rf = if ks { 7 } else { 0 };
+            d.sq[sqi(home, rf)] = Some((Piece::Rook, c));
+            if rng.chance(1, 2) { d.sq[sqi(home, 7 - rf)] = Some((Piece::Rook, c)); }
+            let rook_sq = sqi(home, rf);
+            let ok = near(rng, rook_sq, 1);
+            if d.sq[ok].is_none() { d.sq[ok] = Some((Piece::King, o)); } else { return None; }
+            if white { d.wcr = if ks { 1 } else { 2 }; } else { d.bcr = if ks { 1 } else { 2 }; }
+            if d.sq[sqi(home, 7 - rf)].is_some() { if white { d.wcr = 3 } else { d.bcr = 3 } }
+            let extra = rng.below(4); sprinkle(rng, &mut d, extra, None);
+            d.stm = if rng.chance(2, 3) { o } else { c };
+            focus = Some(rook_sq);
+        }
+        3 => {
+            // castling with attackers aimed at the king's path
+            let home = rk(0);
+            d.sq[sqi(home, 4)] = Some((Piece::King, c));
+            d.sq[sqi(home, 0)] = Some((Piece::Rook, c));
+            d.sq[sqi(home, 7)] = Some((Piece::Rook, c));
+            if white { d.wcr = 3 } else { d.bcr = 3 }
+            let ok = sqi(rk(7), rng.below(8));
+            d.sq[ok] = Some((Piece::King, o));
+            for _ in 0..(1 + rng.below(3)) {
+                let file = rng.below(8);
+                let s = sqi(rk(2 + rng.below(5)), file);
+                if d.sq[s].is_none() { d.sq[s] = Some(([Piece::Rook, Piece::Bishop, Piece::Queen, Piece::Knight][rng.below(4)], o)); }
+            }
+            d.stm = c;
+            focus = Some(sqi(home, 4));
+        }
+        4 => {
+            // promotion (quiet and capturing) next to the enemy king, sometimes with the pawn pinned
+            let f = rng.below(8);
+            d.sq[sqi(rk(6), f)] = Some((Piece::Pawn, c));
+            let last = sqi(rk(7), f);
+            let ok = near(rng, last, 2);
+            if d.sq[ok].is_none() && ok != last { d.sq[ok] = Some((Piece::King, o)); } else { return None; }
+            let ck = match rng.below(3) { 0 => near(rng, sqi(rk(6), f), 2), _ => rng.below(64) };
+            if d.sq[ck].is_none() { d.sq[ck] = Some((Piece::King, c)); } else { return None; }
+            if f > 0 && rng.chance(1, 2) && d.sq[sqi(rk(7), f - 1)].is_none() { d.sq[sqi(rk(7), f - 1)] = Some(([Piece::Rook, Piece::Bishop, Piece::Knight, Piece::Queen][rng.below(4)], o)); }
+            if f < 7 && rng.chance(1, 2) && d.sq[sqi(rk(7), f + 1)].is_none() { d.sq[sqi(rk(7), f + 1)] = Some(([Piece::Rook, Piece::Bishop, Piece::Knight, Piece::Queen][rng.below(4)], o)); }
+            let extra = rng.below(4); sprinkle(rng, &mut d, extra, Some(last));
+            d.stm = c;
+            focus = Some(last);
+        }
+        6 | 7 => {
+            // o's king is in double check right now (knight + slider, or two sliders), its neighbourhood
+            // crowded with c's men, some of them unprotected: the only replies may be king captures
+            let ok = rng.below(64);
+            d.sq[ok] = Some((Piece::King, o));
+            let (kr, kf) = ((ok / 8) as i32, (ok % 8) as i32);
+            let mut placed = 0;
+            if rng.chance(2, 3) {
+                let offs = [(1, 2), (2, 1), (-1, 2), (-2, 1), (1, -2), (2, -1), (-1, -2), (-2, -1)];
+                let (dr, df) = offs[rng.below(8)];
+                let (r, f) = (kr + dr, kf + df);
+                if r >= 0 && r < 8 && f >= 0 && f < 8 { d.sq[(r * 8 + f) as usize] = Some((Piece::Knight, c)); placed += 1; }
+            }
+            let dirs = [(0, 1), (1, 0), (0, -1), (-1, 0), (1, 1), (1, -1), (-1, 1), (-1, -1)];
+            let mut guard_i = 0;
+            while placed < 2 && guard_i < 12 {
+                guard_i += 1;
+                let di = rng.below(8);
+                let (dr, df) = dirs[di];
+                let dist = 1 + rng.below(4) as i32;
+                let (r, f) = (kr + dr * dist, kf + df * dist);
+                if r < 0 || r >= 8 || f < 0 || f >= 8 { continue; }
+                // path must be empty
+                let mut clear = true;
+                for t in 1..dist { if d.sq[((kr + dr * t) * 8 + kf + df * t) as usize].is_some() { clear = false; } }
+                let s = (r * 8 + f) as usize;
+                if !clear || d.sq[s].is_some() { continue; }
+                let p = if di < 4 { if rng.chance(1, 2) { Piece::Rook } else { Piece::Queen } } else { if rng.chance(1, 2) { Piece::Bishop } else { Piece::Queen } };
+                d.sq[s] = Some((p, c));
+                placed += 1;
+            }
+            let mut ck = rng.below(64);
+            let mut tries = 0;
+            while (d.sq[ck].is_some() || ((ck / 8) as i32 - kr).abs() <= 1 && ((ck % 8) as i32 - kf).abs() <= 1) && tries < 30 { ck = rng.below(64); tries += 1; }
+            if d.sq[ck].is_some() { return None; }
+            d.sq[ck] = Some((Piece::King, c));
+            let kinds = [Piece::Rook, Piece::Bishop, Piece::Knight, Piece::Queen, Piece::Pawn];
+            for _ in 0..(1 + rng.below(5)) {
+                let s = near(rng, ok, 2);
+                // do not block the checking rays: only squares not aligned strictly between are rarely hit; accept blocking
+                if d.sq[s].is_none() { let p = kinds[rng.below(kinds.len())]; if !(p == Piece::Pawn && (s < 8 || s >= 56)) { d.sq[s] = Some((p, c)); } }
+            }
+            for _ in 0..rng.below(3) {
+                let s = near(rng, ok, 2);
+                if d.sq[s].is_none() { let p = [Piece::Pawn, Piece::Knight, Piece::Bishop, Piece::Rook][rng.below(4)]; if !(p == Piece::Pawn && (s < 8 || s >= 56)) { d.sq[s] = Some((p, o)); } }
+            }
+            d.stm = o;
+            focus = Some(ok);
+        }
+        _ => {
+            // a crowded neighbourhood of o's king with c to move: discovered / double checks,
+            // contact checks that can only be answered by capturing
+            let ok = rng.below(64);
+            d.sq[ok] = Some((Piece::King, o));
+            let mut ck = rng.below(64);
+            let mut tries = 0;
+            while (d.sq[ck].is_some() || ((ck / 8) as i32 - (ok / 8) as i32).abs() <= 1 && ((ck % 8) as i32 - (ok % 8) as i32).abs() <= 1) && tries < 20 { ck = rng.below(64); tries += 1; }
+            if d.sq[ck].is_some() { return None; }
+            d.sq[ck] = Some((Piece::King, c));
+            let kinds = [Piece::Queen, Piece::Rook, Piece::Bishop, Piece::Knight, Piece::Knight, Piece::Rook];
+            for _ in 0..(3 + rng.below(4)) {
+                let s = near(rng, ok, 3);
+                if d.sq[s].is_none() { d.sq[s] = Some((kinds[rng.below(kinds.len())], c)); }
+            }
+            for _ in 0..rng.below(3) {
+                let s = near(rng, ok, 2);
+                if d.sq[s].is_none() { let p = [Piece::Pawn, Piece::Knight, Piece::Bishop][rng.below(3)]; if !(p == Piece::Pawn && (s < 8 || s >= 56)) { d.sq[s] = Some((p, o)); } }
+            }
+            d.stm = c;
+            focus = Some(ok);
+        }
+    }
+    let _ = focus;
+    if kind <= 1 { d.stm = c; }
+    let b = guard(|| Board::try_from(&d.builder()).ok()).flatten()?;
+    if !b.is_sane() { return None; }
+    let mut moves = Vec::new();
+    let mut cur = b;
+    for (s, t) in first {
+        let m = ChessMove::new(unsafe_sq(s), unsafe_sq(t), None);
+        if !guard(|| cur.legal(m)).unwrap_or(false) { return None; }
+        moves.push(m);
+        cur = guard(|| cur.make_move_new(m))?;
+    }
+    Some((b, moves))
+}
+
+fn unsafe_sq(i: usize) -> Square { chess::ALL_SQUARES[i & 63] }
